@@ -138,7 +138,8 @@ def check(ctx: Ctx) -> None:
     detail['scatter'] = norm(scat[0])[:100]
     detail['scatter_index'] = norm(idx)[:80]
     names = {x.id for x in ast.walk(idx) if isinstance(x, ast.Name)}
-    through_sort = isinstance(idx, ast.Subscript) and norm(idx.value) == sort_idx
+    # through the argsort index: at a subset of the sorted positions, or at all of them (the whole permutation)
+    through_sort = (isinstance(idx, ast.Subscript) and norm(idx.value) == sort_idx) or norm(idx) == sort_idx
     fresh = any(isinstance(x, ast.Call) and 'argsort' in norm(x.func) for x in ast.walk(idx))
     if not through_sort and sort_idx in names and not fresh:
         ctx.error('C12.b: the scatter index `%s` uses the argsort index in a form that is not `%s[<positions>]`: cannot tell' % (norm(idx)[:60], sort_idx))
@@ -211,9 +212,21 @@ def _check_budget(ctx: Ctx, fn: FuncInfo) -> None:
     rets = [n for n in walk_no_nested(fn.node) if isinstance(n, ast.Return) and isinstance(n.value, ast.Tuple)]
     scat = [n for n in walk_no_nested(fn.node) if isinstance(n, ast.Assign) and isinstance(n.targets[0], ast.Subscript)
             and isinstance(n.value, ast.Name) and rets and norm(n.targets[0].value) == norm(rets[0].value.elts[0])]
-    if len(scat) != 1 or scat[0].value.id not in loc:
+    aux_name = scat[0].value.id if len(scat) == 1 else None
+    if aux_name is not None and aux_name not in loc:
+        # the scattered vector may be the allocation of the channels that stay on PADDED WITH ZEROS for the dropped ones
+        # (`np.concatenate([aux, np.zeros(k)])`): the padding adds nothing to the sum
+        dfs = [n for n in walk_no_nested(fn.node) if isinstance(n, ast.Assign) and len(n.targets) == 1 and isinstance(n.targets[0], ast.Name)
+               and n.targets[0].id == aux_name]
+        if len(dfs) == 1 and isinstance(dfs[0].value, ast.Call) and norm(dfs[0].value.func) in ('np.concatenate', 'np.hstack') \
+                and dfs[0].value.args and isinstance(dfs[0].value.args[0], (ast.List, ast.Tuple)):
+            pieces = dfs[0].value.args[0].elts
+            nonzero = [e for e in pieces if not (isinstance(e, ast.Call) and norm(e.func) in ('np.zeros', 'np.zeros_like'))]
+            if len(nonzero) == 1 and isinstance(nonzero[0], ast.Name) and nonzero[0].id in loc:
+                aux_name = nonzero[0].id
+    if aux_name is None or aux_name not in loc:
         ctx.error('C12.e: the scattered allocation vector is not a single-assignment formula (cannot tell)')
-    aux = loc[scat[0].value.id]
+    aux = loc[aux_name]
     # Ps = the tentative allocation (re-assigned in the loop): a symbol of the term
     syms = {a[1] for a in T.atoms_of(aux) if a[0] == 'sym'}
     sums = [a for a in T.atoms_of(aux) if a[0] == 'call' and a[1].split('.')[-1] == 'sum']
